@@ -51,6 +51,8 @@ package main
 //@   loop 2 invariant[written-in-time-order] forall(0, len(entries)-1, func(j int) bool { return entries[j].T <= entries[j+1].T })
 //@   loop 2 invariant rangeindex+1 <= len(entries)
 //@   loop 2 body_ensures[one-write-per-entry] w_called && w_r1 == nil
+//@   loop 2 body_ensures[line-ends-with-a-newline] len(w_a0) >= 1 && w_a0[len(w_a0)-1] == '\n'
+//@   loop 2 body_ensures[bare-line-is-the-trimmed-message] !opts.container && !opts.timestamp ==> len(w_a0) == len(strings.TrimRight(entry.V, "\r\n")) + 1 && forall(0, len(w_a0)-1, func(j int) bool { return w_a0[j] == strings.TrimRight(entry.V, "\r\n")[j] })
 
 //@ scope query.go
 
